@@ -10,15 +10,16 @@
 //!  * a read that succeeded returned exactly the handler's values for the requested range;
 //!  * every request completes exactly once.
 
-use super::client::{start_tcp_client, submit, Style, MS};
+use super::client::{start_tcp_client, submit, ClientRig, Style, MS};
 use super::common::*;
 use super::server_tcp::start_tcp_server;
 use crate::driver::{RunOut, ScenCfg};
 use crate::model::client::Outcome;
 use crate::model::pdu::{ReplyData, Req};
-use crate::model::server::{Call, UnitMem};
+use crate::model::server::{Call, Policy, UnitMem};
 use rodbus::server::AddressFilter;
 use rodbus::ClientOptions;
+use std::sync::{Arc, Mutex};
 use serde_json::json;
 use simtokio::kernel::{self, chance, choose, weighted};
 use simtokio::net::{self, PeerEnd};
@@ -33,6 +34,18 @@ struct Link {
 }
 
 pub fn run(cfg: &ScenCfg, out: &mut RunOut) {
+    run_impl(cfg, out, false)
+}
+
+/// The same over TLS with an authorization handler (C08): the relay carries ciphertext. Additional oracle: a
+/// request the policy denies is never executed and never completes with data - exception 01 or an error
+pub fn run_tls_authz(cfg: &ScenCfg, out: &mut RunOut) {
+    run_impl(cfg, out, true)
+}
+
+const ROLE: &str = "operator";
+
+fn run_impl(cfg: &ScenCfg, out: &mut RunOut, tls: bool) {
     let sched = chance(1, 2);
     let chunk = chance(1, 2);
     kernel::with(|w| {
@@ -47,11 +60,45 @@ pub fn run(cfg: &ScenCfg, out: &mut RunOut) {
     let mem = UnitMem::new(0xe2e0_0000 + choose(1000) as u64);
     let mut units = BTreeMap::new();
     units.insert(1u8, mem.clone());
-    let server = start_tcp_server(server_addr, &units, 4, AddressFilter::Any, decode);
-    net::stub_listen(relay_addr);
+    let policy = if tls { Policy::Table(0xa07b_0000 + choose(1000) as u64) } else { Policy::AllowAll };
+    let allowed = |r: &Req| -> bool {
+        let (s, c) = match r {
+            Req::WriteCoil { addr, .. } | Req::WriteReg { addr, .. } => (*addr, 0),
+            _ => r.range(),
+        };
+        policy.decide(r.fc(), 1, s, c, ROLE)
+    };
     let retry = 10 * MS;
     let opts = ClientOptions::default().decode_level(decode).max_queued_requests(16).max_response_timeouts(None);
-    let rig = start_tcp_client(relay_addr, (retry, retry), opts);
+    net::stub_listen(relay_addr);
+    let (journal, _server_handle, rig): (Journal, rodbus::server::ServerHandle, ClientRig) = if tls {
+        use rodbus::client::*;
+        use rodbus::server::*;
+        use rodbus::*;
+        let fixture = super::tls::fixture;
+        let scfg = TlsServerConfig::new(&fixture("ca1_cert.pem"), &fixture("srv_ok_cert.pem"), &fixture("srv_ok_key.pem"), None, MinTlsVersion::V1_2, CertificateMode::AuthorityBased).expect("server config");
+        let journal: Journal = Arc::new(Mutex::new(Vec::new()));
+        let mut map = ServerHandlerMap::new();
+        map.add(UnitId::new(1), MemHandler { unit: 1, mem: mem.clone(), journal: journal.clone() }.wrap());
+        let listener = simtokio::net::TcpListener::bind_now(server_addr).unwrap();
+        let auth: Arc<dyn AuthorizationHandler> = Arc::new(PolicyAuth { policy: policy.clone(), journal: journal.clone() });
+        let (handle, task) = create_tls_server_task_with_authz(4, listener, map, auth, scfg, AddressFilter::Any, decode);
+        let _ = simtokio::task::spawn_named("tls-server", task.run());
+        let ccfg = TlsClientConfig::full_pki(Some("test.com".to_string()), &fixture("ca1_cert.pem"), &fixture("cli_operator_cert.pem"), &fixture("cli_operator_key.pem"), None, MinTlsVersion::V1_2).expect("client config");
+        let states: super::client::StateLog = Arc::new(Mutex::new(Vec::new()));
+        let (channel, task) = create_tls_client_task_with_options(
+            HostAddr::ip(relay_addr.ip(), relay_addr.port()),
+            doubling_retry_strategy(std::time::Duration::from_nanos(retry), std::time::Duration::from_nanos(retry)),
+            ccfg,
+            Some(Box::new(super::client::Listen { log: states.clone(), delay_ns: 0 })),
+            opts,
+        );
+        let task = simtokio::task::spawn_named("tls-client", task.run());
+        (journal, handle, ClientRig { channel: Some(channel), task, states, comps: Arc::new(Mutex::new(Vec::new())), addr: relay_addr })
+    } else {
+        let server = start_tcp_server(server_addr, &units, 4, AddressFilter::Any, decode);
+        (server.journal, server.handle, start_tcp_client(relay_addr, (retry, retry), opts))
+    };
     let ch = rig.channel.as_ref().unwrap().clone();
     super::client::spawn_cmd(&ch, 0, 0);
     kernel::settle();
@@ -193,7 +240,7 @@ pub fn run(cfg: &ScenCfg, out: &mut RunOut) {
         return;
     }
     // handler journal vs. what the application submitted
-    let journal: Vec<(u8, Call)> = server.journal.lock().unwrap().clone();
+    let journal: Vec<(u8, Call)> = journal.lock().unwrap().clone();
     let mut executed: BTreeMap<usize, u32> = BTreeMap::new();
     for (u, c) in &journal {
         let matching: Option<usize> = match c {
@@ -202,7 +249,7 @@ pub fn run(cfg: &ScenCfg, out: &mut RunOut) {
                 .iter()
                 .find(|(_, r)| matches!(r, Req::WriteRegs { start, values } if start == s && values.len() == *n as usize && items.iter().map(|x| x.1).collect::<Vec<u16>>() == *values))
                 .map(|x| *x.0),
-            Call::ReadInput(_) => continue,
+            Call::ReadInput(_) | Call::Auth(..) => continue,
             other => {
                 let d = format!("the server's handler was asked for {:?}, which no request of the client application can cause", other);
                 out.violate("C02", "e2e/alien_handler_call", d.clone());
@@ -235,8 +282,31 @@ pub fn run(cfg: &ScenCfg, out: &mut RunOut) {
             return;
         }
     }
+    for (id, req) in &submitted {
+        if allowed(req) {
+            continue;
+        }
+        let o = &done[id][0];
+        let ok = match o {
+            Outcome::Ok(_) => false,
+            Outcome::Exception(e) => *e == 1,
+            _ => true,
+        };
+        if !ok || executed.contains_key(id) {
+            let d = format!("request {} (fc {}) is denied by the authorization policy for role {:?}: it completed with {:?} and was executed {} times by the point handlers", id, req.fc(), ROLE, o, executed.get(id).copied().unwrap_or(0));
+            out.violate("C08", "e2e/denied_request_had_an_effect", d.clone());
+            out.violate("C04", "e2e/denied_request_had_an_effect", d.clone());
+            out.violate("C11", "e2e/denied_request_had_an_effect", d);
+            return;
+        }
+        out.ops_checked += 1;
+        out.probe("e2e_denied_request_checked");
+    }
     for (id, v) in &done {
         let req = &submitted[id];
+        if !allowed(req) {
+            continue;
+        }
         match (&v[0], req) {
             (Outcome::Ok(ReplyData::EchoReg(a, x)), Req::WriteReg { addr, value }) => {
                 if a != addr || x != value || !executed.contains_key(id) {
@@ -292,5 +362,5 @@ pub fn run(cfg: &ScenCfg, out: &mut RunOut) {
     }
     out.nontrivial = if out.ops_checked > 0 { Some(wl ^ ((window as u64) << 48)) } else { None };
     out.sample = Some(json!({"scenario": "client <-> relay <-> server end to end", "window": window, "connections": conn_no, "requests": submitted.len(), "actions": trace.iter().take(24).collect::<Vec<_>>()}));
-    let _ = (server.handle, rig.task);
+    let _ = rig.task;
 }
